@@ -39,6 +39,9 @@ def goenv():
     return e
 
 
+COVER = False  # --cover: also record which corebgp statements the workload reached
+
+
 def modfile_args(rundir):
     repo = os.environ.get("VERIF_REPO")
     if not repo or os.path.realpath(repo) == "/repo":
@@ -57,6 +60,8 @@ def build(rundir, pkg, race):
     cmd = [GO, "test", "-c", "-tags", "verif", "-vet=off"] + modfile_args(rundir)
     if race:
         cmd.append("-race")
+    if COVER:
+        cmd += ["-cover", "-covermode=atomic", "-coverpkg=github.com/jwhited/corebgp"]
     cmd += ["-o", out, "./checks/" + pkg]
     p = subprocess.run(cmd, cwd=ROOT, env=goenv(), stdout=subprocess.PIPE, stderr=subprocess.STDOUT, text=True)
     if p.returncode != 0:
@@ -116,7 +121,10 @@ class Shard:
         env.update(self.spec.get("env", {}))
         env.update(self.extra_env)
         self.logf = open(self.log, "ab")
-        self.proc = subprocess.Popen([self.bin, "-test.run", self.spec["run"], "-test.timeout=0", "-test.count=1"],
+        args = [self.bin, "-test.run", self.spec["run"], "-test.timeout=0", "-test.count=1"]
+        if COVER:
+            args.append("-test.coverprofile=" + os.path.join(self.rundir, "cover.%s.%d.%d.out" % (self.passname, self.i, self.restarts)))
+        self.proc = subprocess.Popen(args,
                                      cwd=self.rundir, env=env, stdout=self.logf, stderr=subprocess.STDOUT)
         self.last_change = time.time()
 
@@ -347,9 +355,12 @@ def main():
     ap.add_argument("--seed", type=int, default=int(os.environ.get("VERIF_SEED", "1") or 1))
     ap.add_argument("--replay")
     ap.add_argument("--keep", action="store_true")
+    ap.add_argument("--cover", action="store_true", help="record statement coverage of corebgp under this check's workload (build/cover/<prop>.out)")
     ap.add_argument("--shards", type=int, default=int(os.environ.get("VERIF_SHARDS", "0") or 0))
     a = ap.parse_args()
     prop = a.prop
+    global COVER
+    COVER = a.cover
     if prop not in SPECS:
         print("unknown property", prop)
         sys.exit(2)
@@ -563,6 +574,19 @@ def main():
                 w = r["res"].get("witness")
                 if w:
                     print(json.dumps(w, indent=1, default=str)[:20000])
+    if COVER:
+        merged = {}
+        for path in glob.glob(os.path.join(rundir, "cover.*.out")):
+            for line in open(path):
+                if line.startswith("mode:"):
+                    continue
+                k, _, cnt = line.rstrip().rpartition(" ")
+                merged[k] = merged.get(k, 0) + int(cnt)
+        os.makedirs(os.path.join(ROOT, "build", "cover"), exist_ok=True)
+        with open(os.path.join(ROOT, "build", "cover", prop + ".out"), "w") as f:
+            f.write("mode: atomic\n")
+            for k in sorted(merged):
+                f.write("%s %d\n" % (k, merged[k]))
     rc = 0
     if new_v:
         rc = 1
